@@ -54,11 +54,14 @@ pub fn on_issue(w: &mut World, rid: usize) {
     // candidates by shadow state; requests that are still checking out and popped a connection at their
     // own issue each hold one of them (which one is the pool's choice)
     let candidates = idle_available(w, &origin);
-    let reserved = w.reqs.iter().filter(|r| r.id != rid && r.origin == origin && r.state == ReqState::Checkout && !r.avail_at_issue.is_empty()).count();
-    if candidates.len() > reserved {
+    // every request that is still checking out and popped a connection at its own issue holds one element of its
+    // candidate list; which one is the pool's choice, so only connections outside all those lists are certainly idle
+    let maybe_taken: Vec<usize> = w.reqs.iter().filter(|r| r.id != rid && r.origin == origin && r.state == ReqState::Checkout).flat_map(|r| r.avail_at_issue.iter().copied()).collect();
+    let certainly_idle = candidates.iter().any(|c| !maybe_taken.contains(c));
+    if !candidates.is_empty() {
         w.reqs[rid].avail_at_issue = candidates;
-        w.reqs[rid].must_use_idle = reserved == 0;
-        if reserved == 0 {
+        w.reqs[rid].must_use_idle = certainly_idle;
+        if certainly_idle {
             w.count("issue_with_idle_available");
         }
     }
@@ -89,10 +92,17 @@ pub fn on_dial_created(w: &mut World, did: usize) {
     if !w.cfg.with_pool {
         return;
     }
-    if w.reqs[rid].state == ReqState::Cancelled {
-        // With continue_after_preemption a cancelled request's attempt is started/continued in the
-        // background by design (C14); observed, not judged.
-        w.count("dials_started_in_background_for_cancelled_request");
+    if w.reqs[rid].state != ReqState::Checkout {
+        // R6: the request is no longer waiting for a connection (served or cancelled) and had not started a
+        // dial of its own: nothing was in flight that could be "continued in the background"
+        let st = w.reqs[rid].state;
+        let served = matches!(st, ReqState::Sent | ReqState::Done | ReqState::Failed);
+        w.violate(
+            "C04",
+            format!("R6:dial-started-after-request-was-{}", if served { "served" } else { "cancelled" }),
+            format!("r{rid} is {st:?} and never started a connection attempt, yet transport connect d{did} was started on its behalf afterwards"),
+        );
+        return;
     }
     // R1
     if w.reqs[rid].must_use_idle {
@@ -103,18 +113,25 @@ pub fn on_dial_created(w: &mut World, did: usize) {
         }
     }
     if w.reqs[rid].h2 {
-        // R2
-        if let Some(o) = w.h2_owner.get(&origin).copied() {
-            if o != rid && w.reqs[o].state == ReqState::Checkout && w.reqs[o].issued_step <= w.reqs[rid].issued_step {
-                let owner_dialing = w.reqs[o].dial.map(|d| !w.dials[d].completed || w.dials[d].hs.map(|h| !w.hss[h].completed).unwrap_or(true)).unwrap_or(true);
-                if owner_dialing {
-                    w.violate(
-                        "C04",
-                        "R2:h2-request-dialed-while-attempt-in-flight",
-                        format!("HTTP/2 request r{rid} started dial d{did} while r{o}'s attempt to {origin} is in flight"),
-                    );
-                }
-            }
+        // R2: another HTTP/2 connection attempt to this origin is in flight (dial or handshake outstanding,
+        // whether its request still waits or the attempt continues in the background)
+        let in_flight: Vec<usize> = w
+            .dials
+            .iter()
+            .filter(|d| d.id != did && d.origin == origin && d.h2_req)
+            .filter(|d| {
+                let dial_running = d.dropped_step.is_none() && !d.completed && d.res != Res3::Err;
+                let hs_running = d.completed && d.res == Res3::Ok && d.hs.map(|h| w.hss[h].dropped_step.is_none() && !w.hss[h].completed && w.hss[h].res != Res3::Err).unwrap_or(false);
+                dial_running || hs_running
+            })
+            .map(|d| d.id)
+            .collect();
+        if !in_flight.is_empty() {
+            w.violate(
+                "C04",
+                "R2:h2-request-dialed-while-attempt-in-flight",
+                format!("HTTP/2 request r{rid} started dial d{did} while HTTP/2 attempt(s) {in_flight:?} to {origin} are in flight"),
+            );
         }
         // R3
         let pooled = w.cfg.max_idle_per_host > 0;
@@ -132,32 +149,85 @@ pub fn on_dial_created(w: &mut World, did: usize) {
 
 pub fn on_conn_dropped(_w: &mut World, _cid: usize) {}
 
-pub fn on_conn_ready(w: &mut World, cid: usize) {
-    let origin = w.conns[cid].origin.clone();
-    let producer = w.dials[w.conns[cid].dial].req;
-    let any_waiting = waiting_reqs(w, &origin).any(|r| r.avail_at_issue.is_empty() && r.expect_conn.is_none() && Some(r.id) != producer);
-    w.conns[cid].to_idle_at_ready = !any_waiting;
-    if !w.cfg.with_pool || w.conns[cid].h2 {
-        return;
-    }
-    // C14(a): the first live waiter that has nothing delivered yet must take this connection at its next poll
-    offer_to_next_waiter(w, cid);
+/// requests of `origin` whose sender sits in the pool's waiter queue (live receiver)
+fn live_waiters(w: &World, origin: &str, not: Option<usize>) -> Vec<usize> {
+    // a request that may or may not have popped an idle connection at issue counts as (possibly) waiting
+    waiting_reqs(w, origin).filter(|r| !r.must_use_idle && Some(r.id) != not).map(|r| r.id).collect()
 }
 
-/// a connection is being pushed to the pool while requests wait: the pool hands it to the first live
-/// waiter in issue order (each waiter's channel holds at most one connection)
-pub fn offer_to_next_waiter(w: &mut World, cid: usize) {
+pub fn on_conn_ready(w: &mut World, cid: usize) {
+    // a new hand-back supersedes whatever was expected of this connection before
+    w.offers.retain(|o| o.conn != cid);
+    if !w.cfg.with_pool || w.conns[cid].h2 {
+        w.conns[cid].to_idle_at_ready = true;
+        return;
+    }
+    offer(w, cid, false);
+}
+
+/// A connection is being pushed into the pool. If requests are waiting, the pool hands it to one of them
+/// (HTTP/1: to exactly one, the first live waiter of its queue; HTTP/2: a clone to every live waiter).
+pub fn offer(w: &mut World, cid: usize, strict_each: bool) {
     let origin = w.conns[cid].origin.clone();
     let step = w.step;
     // the request whose own attempt produced this connection closes its receiver before registering it
-    let producer = w.dials[w.conns[cid].dial].req;
-    let next = waiting_reqs(w, &origin)
-        .filter(|r| r.avail_at_issue.is_empty() && r.expect_conn.is_none() && Some(r.id) != producer)
-        .map(|r| r.id)
-        .min_by_key(|r| w.reqs[*r].issued_step);
-    if let Some(h) = next {
-        w.reqs[h].expect_conn = Some((cid, step));
-        w.count("c14_freed_connection_offered_to_waiter");
+    let producer = w.dials[w.conns[cid].dial].req.filter(|r| w.reqs[*r].state == ReqState::Checkout && w.reqs[*r].dial == Some(w.conns[cid].dial));
+    let mut waiters = live_waiters(w, &origin, producer);
+    if strict_each {
+        // only waiters that certainly have nothing in their channel yet
+        waiters.retain(|r| !w.offers.iter().any(|o| o.waiters.contains(r)));
+    }
+    w.conns[cid].to_idle_at_ready = waiters.is_empty();
+    if !waiters.is_empty() {
+        w.offers.push(Offer { conn: cid, step, waiters, polled: vec![], strict_each });
+        w.count("c14_freed_connection_offered_to_waiters");
+    }
+}
+
+pub fn offer_to_next_waiter(w: &mut World, cid: usize) {
+    // HTTP/2 registration: called on the second reuse() of a step (first delivery to a waiter)
+    // with max_idle_per_host = 0 nothing is retained, so a waiter that was released from the queue (and
+    // has not re-joined yet) legitimately misses the registration
+    if w.cfg.max_idle_per_host > 0 && !w.offers.iter().any(|o| o.conn == cid && o.step == w.step) {
+        offer(w, cid, true);
+    }
+}
+
+/// judge the offers `rid` was part of, after a poll that left it waiting
+fn judge_offers_after_poll(w: &mut World, rid: usize) {
+    let step = w.step;
+    let mut verdicts: Vec<(String, String)> = vec![];
+    let mut i = 0;
+    while i < w.offers.len() {
+        let (conn, ostep, strict) = (w.offers[i].conn, w.offers[i].step, w.offers[i].strict_each);
+        if ostep >= step || !w.offers[i].waiters.contains(&rid) {
+            i += 1;
+            continue;
+        }
+        if !w.offers[i].polled.contains(&rid) {
+            w.offers[i].polled.push(rid);
+        }
+        let c = &w.conns[conn];
+        let still_idle = c.alive() && c.is_open() && (c.h2 || c.holders == 0);
+        if !still_idle {
+            w.offers.remove(i);
+            continue;
+        }
+        if strict {
+            verdicts.push((
+                "waiter-did-not-take-shared-connection".into(),
+                format!("r{rid} is still waiting after its poll at step {step} although HTTP/2 connection c{conn} was registered with the pool at step {ostep} while it was waiting"),
+            ));
+            w.offers[i].waiters.retain(|x| *x != rid);
+            if w.offers[i].waiters.is_empty() {
+                w.offers.remove(i);
+                continue;
+            }
+        }
+        i += 1;
+    }
+    for (sig, msg) in verdicts {
+        w.violate("C14", sig, msg);
     }
 }
 
@@ -249,13 +319,20 @@ pub fn on_handoff(w: &mut World, rid: usize, cid: usize, is_reused: bool, uri: &
     }
 
     // ---- C04 R3(b): an HTTP/2 request is carried on the existing HTTP/2 connection
-    // ---- C14(a)
-    if let Some((c0, s)) = w.reqs[rid].expect_conn.take() {
-        if c0 != cid && w.conns[c0].open() && w.conns[c0].alive() && w.conns[c0].holders == 0 {
-            w.violate("C14", "waiter-served-by-other-connection-while-freed-one-idles", format!("r{rid} was offered freed c{c0} at step {s} but was served by c{cid}"));
-        } else if c0 == cid {
+    // ---- C14(a): offers
+    {
+        let before = w.offers.len();
+        if w.offers.iter().any(|o| o.conn == cid && o.waiters.contains(&rid)) {
             w.count("c14_waiter_served_by_freed_connection");
         }
+        if !c_h2 {
+            w.offers.retain(|o| o.conn != cid);
+        }
+        for o in w.offers.iter_mut() {
+            o.waiters.retain(|x| *x != rid);
+        }
+        w.offers.retain(|o| !o.waiters.is_empty());
+        let _ = before;
     }
 
     // ---- bookkeeping
@@ -304,21 +381,15 @@ pub fn on_poll_result(w: &mut World, rid: usize, progressed: bool, wakes_since_l
         let st = w.reqs[rid].state;
         w.violate("C03", format!("lost-wakeup:progress-to-{st:?}-without-wake"), format!("r{rid} progressed at step {step} on an unsolicited poll: no wake-up was delivered since its previous poll"));
     }
-    // C14(a): the freed connection must have been taken by now
-    if let Some((c0, s)) = w.reqs[rid].expect_conn {
-        if s < step && w.reqs[rid].state == ReqState::Checkout {
-            w.reqs[rid].expect_conn = None;
-            let c = &w.conns[c0];
-            if c.alive() && c.open() && c.holders == 0 {
-                w.violate("C14", "waiter-did-not-take-freed-connection", format!("r{rid} is still waiting after its poll at step {step} although c{c0} was handed back at step {s}"));
-            }
-        }
+    // C14(a): a connection handed back while this request was waiting must have found a taker by now
+    if w.reqs[rid].state == ReqState::Checkout {
+        judge_offers_after_poll(w, rid);
     }
 }
 
 /// a request's future resolved with an error: is there a cause the caller could accept?
 pub fn on_request_error(w: &mut World, rid: usize, err: &str) {
-    if w.reqs[rid].timeout_ms.is_some() && err.contains("timeout") {
+    if w.reqs[rid].timeout_ms.is_some() && err.contains("RequestTimeout") {
         return;
     }
     let r = &w.reqs[rid];
@@ -353,7 +424,6 @@ pub fn on_request_error(w: &mut World, rid: usize, err: &str) {
 }
 
 pub struct CancelCtx {
-    h2_handles: Vec<(usize, u32)>,
     healthy_before: Vec<usize>,
     was_checkout: bool,
 }
@@ -362,18 +432,20 @@ pub fn before_cancel(w: &mut World, rid: usize) -> CancelCtx {
     let origin = w.reqs[rid].origin.clone();
     let healthy_before = w.conns.iter().filter(|c| c.origin == origin && c.alive() && c.is_open() && c.holders == 0).map(|c| c.id).collect();
     let was_checkout = w.reqs[rid].state == ReqState::Checkout;
-    let h2_handles = w.conns.iter().filter(|c| c.h2).map(|c| (c.id, c.live_handles)).collect();
-    CancelCtx { h2_handles, healthy_before, was_checkout }
+    CancelCtx { healthy_before, was_checkout }
 }
 
 pub fn after_cancel(w: &mut World, rid: usize, ctx: CancelCtx) {
     let step = w.step;
-    if w.cfg.with_pool && ctx.was_checkout {
+    if w.cfg.with_pool && ctx.was_checkout && w.cfg.max_idle_per_host > 0 {
         for c in ctx.healthy_before {
-            if !w.conns[c].alive() && w.conns[c].open() {
+            // at capacity the pool may drop the surplus connection (C15)
+            let origin = w.conns[c].origin.clone();
+            let others_idle = w.conns.iter().filter(|x| x.id != c && x.origin == origin && x.alive() && x.is_open() && x.holders == 0).count();
+            if !w.conns[c].alive() && w.conns[c].open() && others_idle < w.cfg.max_idle_per_host {
                 let how = if w.reqs[rid].avail_at_issue.contains(&c) {
                     "popped-at-issue"
-                } else if w.reqs[rid].expect_conn.map(|(x, _)| x) == Some(c) {
+                } else if w.offers.iter().any(|o| o.conn == c && o.waiters.contains(&rid)) {
                     "delivered-to-its-waiter"
                 } else {
                     "other"
@@ -383,23 +455,33 @@ pub fn after_cancel(w: &mut World, rid: usize, ctx: CancelCtx) {
             }
         }
     }
-    if w.cfg.with_pool && ctx.was_checkout && w.reqs[rid].polls == 0 {
-        // an HTTP/2 idle entry popped at issue and never re-registered dies with the request
-        let popped: Vec<usize> = w.reqs[rid].avail_at_issue.iter().copied().filter(|c| w.conns[*c].h2 && w.conns[*c].open() && w.conns[*c].in_pool).collect();
-        let others_popped = |w: &World, c: usize| w.reqs.iter().any(|r| r.id != rid && r.state == ReqState::Checkout && r.polls == 0 && r.avail_at_issue.contains(&c));
-        for c in popped {
-            if ctx.h2_handles.iter().any(|(id, n)| *id == c && w.conns[c].live_handles < *n) && !others_popped(w, c) {
-                w.conns[c].in_pool = false;
-                if w.conns[c].alive() {
-                    w.violate("C04", "R5:cancel-destroyed-healthy-connection:popped-at-issue", format!("cancelling r{rid}, which never used a connection, dropped the pool's idle entry for open HTTP/2 connection c{c}"));
-                }
+    // a correct pool gives a connection this request popped (but never used) back: to the next waiter or the idle list
+    if w.cfg.with_pool && ctx.was_checkout && w.reqs[rid].handoffs == 0 {
+        let popped: Vec<usize> = w.reqs[rid].avail_at_issue.iter().copied().filter(|c| !w.conns[*c].h2 && w.conns[*c].alive() && w.conns[*c].is_open() && w.conns[*c].holders == 0).collect();
+        if popped.len() == 1 && w.reqs[rid].must_use_idle {
+            let c = popped[0];
+            let origin = w.conns[c].origin.clone();
+            let _ = origin;
+            w.reqs[rid].state = ReqState::Cancelled;
+            w.offers.retain(|o| o.conn != c);
+            offer(w, c, false);
+        } else {
+            // which of several candidates was popped is the pool's choice: stop reasoning about them
+            for c in popped {
+                w.conns[c].to_idle_at_ready = false;
             }
         }
     }
     let r = &mut w.reqs[rid];
     r.state = ReqState::Cancelled;
     r.cancelled_step = Some(step);
-    r.expect_conn = None;
+    // an HTTP/1 connection offered to a set containing the cancelled waiter may sit in its channel: it comes back
+    // through a fresh readiness report, which creates a fresh offer
+    w.offers.retain(|o| o.strict_each || !o.waiters.contains(&rid));
+    for o in w.offers.iter_mut() {
+        o.waiters.retain(|x| *x != rid);
+    }
+    w.offers.retain(|o| !o.waiters.is_empty());
     if let Some(d) = r.dial {
         let outstanding = !w.dials[d].completed || w.dials[d].hs.map(|h| !w.hss[h].completed).unwrap_or(w.dials[d].res != Res3::Err);
         if outstanding && ctx.was_checkout && w.dials[d].abandoned_step.is_none() {
@@ -407,6 +489,13 @@ pub fn after_cancel(w: &mut World, rid: usize, ctx: CancelCtx) {
             w.count("cancels_with_outstanding_dial");
         }
     }
+}
+
+fn key_matches(key: &str, origin: &str) -> bool {
+    // Debug rendering of UriKey: UriKey("http", Some(a.test))
+    let (scheme, auth) = origin.split_once("://").unwrap_or(("", origin));
+    let k = key.to_ascii_lowercase();
+    k.contains(&format!("\"{scheme}\"")) && k.contains(&format!("some({auth})"))
 }
 
 /// invariants checked after every step, with the pool's own view (hook) in hand
@@ -435,6 +524,39 @@ pub fn post_step(w: &mut World, snapshot: &[hyperdriver::verif_hooks::PoolEntry]
             w.violate("C15", "retained-idle-connections-exceed-max(boundary)", format!("{retained} released, ready, open HTTP/1 connections to {o} are kept alive with max_idle_per_host={max}"));
         }
     }
+    // C14(a): a freed HTTP/1 connection sits in the pool's idle list although requests that were waiting when it
+    // was handed back have been polled since and are still waiting
+    {
+        let mut verdicts = vec![];
+        let mut keep = vec![];
+        for o in w.offers.clone() {
+            if o.strict_each {
+                keep.push(o);
+                continue;
+            }
+            let c = &w.conns[o.conn];
+            let still_idle = c.alive() && c.is_open() && c.holders == 0 && c.ready_reported_step == Some(o.step) && c.released_step.map(|r| r <= o.step).unwrap_or(true);
+            if !still_idle {
+                continue;
+            }
+            let waiting: Vec<usize> = o.waiters.iter().copied().filter(|x| w.reqs[*x].state == ReqState::Checkout).collect();
+            if waiting.is_empty() {
+                continue;
+            }
+            let all_polled = waiting.iter().all(|x| o.polled.contains(x));
+            let key_idle = snapshot.iter().filter(|e| key_matches(&e.key, &c.origin)).map(|e| e.idle).sum::<usize>();
+            let popped_later = w.reqs.iter().any(|r| r.origin == c.origin && r.issued_step > o.step && r.state == ReqState::Checkout && r.polls == 0);
+            if all_polled && key_idle >= 1 && !popped_later {
+                verdicts.push(format!("c{} was handed back at step {} while requests {:?} were waiting; they have been polled since and still wait, while the pool's idle list holds {} connection(s) for {}", o.conn, o.step, waiting, key_idle, c.origin));
+                continue;
+            }
+            keep.push(o);
+        }
+        w.offers = keep;
+        for msg in verdicts {
+            w.violate("C14", "freed-connection-idles-while-waiters-keep-waiting", msg);
+        }
+    }
     // C14 (b)/(c): what happens to an abandoned connection attempt
     let cont = w.cfg.continue_after_preemption;
     let step = w.step;
@@ -456,6 +578,76 @@ pub fn post_step(w: &mut World, snapshot: &[hyperdriver::verif_hooks::PoolEntry]
     for (sig, msg) in v {
         if !w.violations.iter().any(|x| x.message == msg) {
             w.violate("C14", sig, msg);
+        }
+    }
+}
+
+
+// ---------------------------------------------------------------------------------------------
+// C19: the timeout layer around the pooled service (virtual time)
+// ---------------------------------------------------------------------------------------------
+
+pub fn stage_of(w: &World, rid: usize) -> &'static str {
+    let r = &w.reqs[rid];
+    match r.state {
+        ReqState::Checkout => match r.dial {
+            None if r.polls == 0 => "not-yet-polled",
+            None => "waiting-on-another-attempt",
+            Some(d) => {
+                if !w.dials[d].completed {
+                    "waiting-for-own-dial"
+                } else {
+                    "handshaking"
+                }
+            }
+        },
+        ReqState::Sent => "awaiting-response",
+        _ => "finished",
+    }
+}
+
+/// if the inner (pooled) future would resolve when polled right now: the virtual time since when
+pub fn inner_would_resolve(w: &World, rid: usize) -> Option<u64> {
+    let r = &w.reqs[rid];
+    match r.state {
+        ReqState::Sent if r.respond.is_some() => r.respond_vtime_ms,
+        _ => None,
+    }
+}
+
+pub fn on_timeout_poll(w: &mut World, rid: usize, outcome: Option<Result<(), String>>, inner_ready: Option<u64>, stage: &'static str, wakes: u32) {
+    let Some(d) = w.reqs[rid].timeout_ms else { return };
+    let now = w.vnow_ms();
+    let deadline = w.reqs[rid].issued_vtime_ms + d;
+    w.count(&format!("c19_polls_{}", if now >= deadline { "at_or_after_deadline" } else { "before_deadline" }));
+    match outcome {
+        None => {
+            if now >= deadline {
+                w.violate("C19", format!("pending-at-or-after-deadline:{stage}"), format!("r{rid} issued at {}ms with timeout {d}ms is still pending when polled at {now}ms", w.reqs[rid].issued_vtime_ms));
+            }
+        }
+        Some(Err(e)) if e.contains("RequestTimeout") => {
+            w.count(&format!("c19_timeout_in_stage_{stage}"));
+            if now < deadline {
+                w.violate("C19", format!("timeout-before-deadline:{stage}"), format!("r{rid} timed out at {now}ms, deadline {deadline}ms"));
+            } else if let Some(since) = inner_ready {
+                if since < deadline {
+                    w.violate("C19", format!("timeout-although-inner-resolved-first:{stage}"), format!("r{rid} got the timeout error at {now}ms although the inner service had its result ready since {since}ms, before the deadline {deadline}ms"));
+                } else {
+                    w.count("c19_tie_or_late_inner_result");
+                }
+            }
+            if now >= deadline && wakes == 0 && w.reqs[rid].polls > 1 && now > w.reqs[rid].issued_vtime_ms {
+                w.violate("C19", format!("no-wake-at-deadline:{stage}"), format!("r{rid} was not woken when its deadline {deadline}ms passed (polled unsolicited at {now}ms)"));
+            }
+        }
+        Some(Err(e)) => {
+            // the inner error must come through unchanged: it is judged by on_request_error (C01 part)
+            let _ = e;
+            w.count("c19_inner_error_passed_through");
+        }
+        Some(Ok(())) => {
+            w.count("c19_inner_ok_passed_through");
         }
     }
 }
